@@ -30,6 +30,10 @@ PLATFORMS = {
 ARGS = {"nice_set": (0,), "rlimit": (1,), "net_connections": ("inet",), "cpu_affinity_set": ([0],), "ionice_set": (2, 0), "send_signal": (15,)}
 SKIP = {"wait", "oneshot_enter", "oneshot_exit", "nt_mmap_ext", "nt_mmap_grouped", "kill", "suspend", "resume"}
 SKIP_ON = {"aix": {"open_files"}, "openbsd": {"exe"}}       # subprocess / shutil.which based
+# methods that document a fallback when the failing native call is refused / the link cannot be resolved (returning normally is right)
+RETURN_OK = {("aix", "cwd", "ENOENT"), ("sunos", "cwd", "ENOENT"), ("netbsd", "cmdline", "EINVAL")}
+RETURN_OK_ANY = set()
+WIN_FALLBACKS = {"memory_info", "memory_full_info", "cpu_times", "create_time", "io_counters", "num_handles", "exe", "name", "username"}
 # documented platform-specific translations (the comments in the source explain them): outcome sets accepted as they are
 SPECIAL = {("netbsd", "cmdline", "EINVAL"): "NetBSD returns EINVAL for zombies and for undecodable command lines: ZombieProcess / NoSuchProcess / []"}
 
@@ -43,7 +47,7 @@ META = dict(
     bounds=dict(quick=dict(platforms=list(PLATFORMS), methods="every public method of each platform's Process class that needs no live subprocess", errno=ERRNOS, windows_codes=WINERRS, failures="one (the first native call)", pids=[0, 5]),
                 thorough=dict(platforms=list(PLATFORMS), methods="as quick", errno=ERRNOS, failures="one, at any of the first 3 native calls", pids=[0, 5])),
     outside=["subprocess-based methods (pfiles/procfiles) and Windows services", "the clause about exposed function/constant names (a static comparison of two lists, not a solver question)", "more than one native failure per call"],
-    labels=["no-such-process->NSP/Zombie", "permission->AD", "other-errors-unchanged", "pid0-AD", "bsd-record-slots", "osx-record-slots", "windows-broadcast", "mac-padding"],
+    labels=["no-such-process->NSP/Zombie", "permission->AD", "other-errors-unchanged", "pid0-AD", "bsd-record-slots", "osx-record-slots", "windows-record-slots", "windows-broadcast", "mac-padding"],
 )
 
 
@@ -143,9 +147,18 @@ def errors(ctx, plat_, pid, fail_at):
         lab.arm()
         if saved_os is not None:
             PL.os = saved_os
-    info = f"{plat_}.{m}(pid={pid}) errno={en} winerror={wname} zombie={zombie} listed={listed} native-calls={calls[:3]} -> {type(exc).__name__}: {exc}"
+    info = f"{plat_}.{m}(pid={pid}) errno={en} winerror={wname} zombie={zombie} listed={listed} native-calls={calls[:3]} -> {type(exc).__name__ if exc is not None else 'returned normally'}: {exc}"
     if exc is None:
-        ctx.reach("returned")              # the method handled the failure itself (documented fallbacks) or made no native call
+        # the method returned although a native call failed: accepted only for the fallbacks the sources document
+        if len(calls) > fail_at:
+            a0_ = call_args[fail_at][0] if call_args[fail_at] else None
+            per_ = (a0_ == pid and not isinstance(a0_, bool)) if isinstance(a0_, int) else (isinstance(a0_, str) and f"/{pid}" in a0_)
+            perm_ = en in ("EPERM", "EACCES") or wname in ("ERROR_ACCESS_DENIED", "ERROR_PRIVILEGE_NOT_HELD")
+            documented = (plat_, m, en) in RETURN_OK or (family == "win" and perm_ and m in WIN_FALLBACKS) or (plat_, m) in RETURN_OK_ANY
+            if per_:
+                ctx.prove(documented, "failure-not-swallowed", detail=info)
+                return
+        ctx.reach("returned")              # no per-process native call failed
         return
     if len(calls) <= fail_at:
         ctx.reach("no-native-failure")     # the exception comes from the method's own guard (e.g. the PID 0 guards), not from an OS failure
@@ -288,6 +301,58 @@ def osx_slots(ctx):
           ctx.eq(mi.rss, T("rss")), ctx.eq(mi.vms, T("vms")), ctx.eq(mi.pfaults, T("pfaults")), ctx.eq(mi.pageins, T("pageins")),
           ctx.eq(p.num_threads(), T("threads")), ctx.eq(cs.voluntary, T("ctx")), p.name() == "procname"]
     ctx.prove(ctx.all(ok), "osx-record-slots", detail=f"kinfo slots {ks} task slots {ts}")
+
+
+WIN_SEM = {"num_handles": "num handles", "ctx_switches": "num ctx switches", "user_time": "cpu user time", "kernel_time": "cpu kernel time", "create_time": "create time", "num_threads": "num threads",
+           "io_rcount": "io rcount", "io_wcount": "io wcount", "io_rbytes": "io rbytes", "io_wbytes": "io wbytes", "io_count_others": "io others count", "io_bytes_others": "io others bytes",
+           "num_page_faults": "num page faults", "peak_wset": "peak wset", "wset": "wset", "peak_paged_pool": "peak paged pool", "paged_pool": "paged pool", "peak_nonpaged_pool": "peak non paged pool",
+           "nonpaged_pool": "non paged pool", "pagefile": "pagefile", "peak_pagefile": "peak pagefile", "private": "private"}
+
+
+@harness("C20.win_slots", quick=[dict(denied=d) for d in (False, True)])
+def win_slots(ctx, denied):
+    """Windows: every field of the named tuples comes from the slot of the native record that carries that name, on the direct
+    path and on the documented slower path taken when the direct native call is refused"""
+    pkg, PL, mods, lab, family = get("windows")
+    src = open(os.path.join(REPO, "psutil", "arch/windows/proc_info.c")).read()
+    i = src.index("psutil_proc_info(")
+    j = src.rindex("Py_BuildValue", i, src.index("private", src.index("num handles", i)))
+    comments = [c.strip() for c in re.findall(r"//\s*([a-z][^\n]*)", src[j:src.index(");", j)]) if c.strip() not in ("IO counters", "memory")]
+    slot = {}
+    for sem, text in WIN_SEM.items():
+        if text not in comments:
+            raise HarnessError(f"C comment {text!r} not found in {comments}")
+        slot[sem] = comments.index(text)
+    vals = [ctx.int(f"w{i}", 1, 2**40) for i in range(len(comments))]
+    lab.windows = True
+    lab.answers["proc_info"] = lambda pid: tuple(vals)
+    direct = dict(mem=[ctx.int(f"m{i}", 1, 2**40) for i in range(10)], times=[ctx.int(f"t{i}", 1, 2**40) for i in range(3)], io=[ctx.int(f"io{i}", 1, 2**40) for i in range(6)], nh=ctx.int("nh", 1, 2**20))
+
+    def refuse(*a):
+        e = PermissionError(errno.EACCES, "denied")
+        e.winerror = PL.cext.ERROR_ACCESS_DENIED
+        raise e
+
+    lab.answers["proc_memory_info"] = refuse if denied else (lambda pid: tuple(direct["mem"]))
+    lab.answers["proc_times"] = refuse if denied else (lambda pid: tuple(direct["times"]))
+    lab.answers["proc_io_counters"] = refuse if denied else (lambda pid: tuple(direct["io"]))
+    lab.answers["proc_num_handles"] = refuse if denied else (lambda pid: direct["nh"])
+    lab.arm()
+    p = PL.Process(5)
+    V = lambda sem: vals[slot[sem]]     # noqa: E731
+    mi, ct, io = p.memory_info(), p.cpu_times(), p.io_counters()
+    ok = [ctx.eq(p.num_threads(), V("num_threads")), ctx.eq(p.num_ctx_switches().voluntary, V("ctx_switches"))]
+    MEM = ["num_page_faults", "peak_wset", "wset", "peak_paged_pool", "paged_pool", "peak_nonpaged_pool", "nonpaged_pool", "pagefile", "peak_pagefile", "private"]
+    if denied:
+        ok += [ctx.eq(getattr(mi, f), V(f)) for f in MEM] + [ctx.eq(mi.rss, V("wset")), ctx.eq(mi.vms, V("pagefile"))]
+        ok += [ctx.eq(ct.user, V("user_time")), ctx.eq(ct.system, V("kernel_time")), ctx.eq(p.create_time(), V("create_time")), ctx.eq(p.num_handles(), V("num_handles"))]
+        ok += [ctx.eq(io.read_count, V("io_rcount")), ctx.eq(io.write_count, V("io_wcount")), ctx.eq(io.read_bytes, V("io_rbytes")), ctx.eq(io.write_bytes, V("io_wbytes")),
+               ctx.eq(io.other_count, V("io_count_others")), ctx.eq(io.other_bytes, V("io_bytes_others"))]
+    else:
+        ok += [ctx.eq(getattr(mi, f), direct["mem"][i]) for i, f in enumerate(MEM)] + [ctx.eq(mi.rss, direct["mem"][2]), ctx.eq(mi.vms, direct["mem"][7])]
+        ok += [ctx.eq(ct.user, direct["times"][0]), ctx.eq(ct.system, direct["times"][1]), ctx.eq(p.create_time(), direct["times"][2]), ctx.eq(p.num_handles(), direct["nh"])]
+        ok += [ctx.eq(a, b) for a, b in zip(io, direct["io"])]
+    ctx.prove(ctx.all(ok), "windows-record-slots", detail=f"denied={denied} slots={slot}")
 
 
 # ---- front end post-processing --------------------------------------------------------------------------------------------
